@@ -60,6 +60,7 @@ def check_c01(prog, rep, tier, cfg):
     c01a(prog, rep)
     c01b(prog, rep)
     c01c(prog, rep)
+    check_c01d(prog, rep)
 
 
 def c01a(prog, rep):
@@ -422,6 +423,67 @@ def check_c07(prog, rep, tier, cfg):
         rep.check(ok, R, "toggle-only-in-comments", "FormattingToggler no longer parses toggles from (and only from) comment tokens' content")
         its = sorted(c.callee.split("::")[-1] for c in b.calls() if (c.callee or "").startswith("core::iter::") or (c.callee or "").startswith("core::slice::"))
         rep.check(its == ["enumerate", "into_iter", "iter", "next"], R, "toggle-scans-all-tokens-in-order", "FormattingToggler iterates tokens with %s" % its, instance={"chain": its})
+        toggler_loop_discipline(prog, rep, R, b)
+
+
+def toggler_loop_discipline(prog, rep, R, b):
+    """The region scan visits every token (the only exit of the loop is the exhausted iterator), decides
+    each token by `ignored | on_toggle_comment`, and `ignored` changes only on an explicit Off / On."""
+    from progress import bfs_cycle
+    loops = b.loops()
+    if not rep.check(len(loops) == 1, R, "toggle:one-loop", "FormattingToggler::ignore_tokens must have exactly one loop (found %d)" % len(loops)):
+        return
+    h, L = next(iter(loops.items()))
+    # exits of the loop
+    exits = [(x, s) for x in L for s in b.succ[x] if s not in L and b.blocks[s]["term"]["k"] != "unreachable"]
+    nxt = [c for c in b.calls() if c.callee == "core::iter::traits::iterator::Iterator::next" and c.bb in L]
+    ok = len(nxt) == 1
+    if ok:
+        sw = nxt[0].t["target"]
+        t = b.blocks[sw]["term"]
+        none_tgt = [tb for v, tb in t["targets"] if v == 0] if t["k"] == "switch" else []
+        ok = len(exits) == 1 and exits[0][0] == sw and none_tgt and exits[0][1] == none_tgt[0]
+    rep.check(ok, R, "toggle:scan-ends-only-when-tokens-exhausted", "the toggle scan can stop before the last token (break / return inside the loop): tokens after that point — e.g. the end-of-file token of an "
+              "unterminated `pasfmt off` region — would not be kept verbatim", where="%s:%d" % (b.file, b.line), instance={"loop_exits": len(exits), "exit": "iterator exhausted"})
+    # every iteration reaches the `ignored | on_toggle_comment` decision
+    dec = None
+    for x in sorted(L):
+        t = b.blocks[x]["term"]
+        if t["k"] == "switch" and t["discr"]["k"] in ("copy", "move"):
+            d = t["discr"]["place"]["l"]
+            for df in b.defs.get(d, []):
+                if df[0] == "assign" and df[3]["rv"]["k"] == "binop" and df[3]["rv"]["op"] == "BitOr":
+                    names = sorted(canon(b, df[3]["rv"][k]) for k in ("a", "b"))
+                    if names == ["var:ignored", "var:on_toggle_comment"]:
+                        dec = x
+    ok = dec is not None and bfs_cycle(b, h, L, {dec}) is None
+    marks = [c for c in b.calls() if c.callee == FMT + "TokenMarker::mark"]
+    if ok and marks:
+        t = b.blocks[dec]["term"]
+        ok = t["otherwise"] == marks[0].bb or marks[0].bb in b.reach_from(t["otherwise"], avoid={h}, include_start=True)
+        ok &= canon(b, marks[0].args[1]).endswith("@Some.0.0")
+    rep.check(ok, R, "toggle:every-token-decided-by-ignored|on_toggle", "not every token of the scan reaches the `ignored | on_toggle_comment => mark(i)` decision", instance={"decision": "ignored | on_toggle_comment"})
+    # stores to `ignored`
+    ign = None
+    for i, lc in enumerate(b.locals):
+        if lc.get("name") == "ignored":
+            ign = i
+    stores = [(bb, s) for bb, i2, s in b.stmts() if s["k"] == "assign" and s["dst"]["l"] == ign and not s["dst"]["p"]] if ign is not None else []
+    good = len(stores) == 3
+    for bb, s in stores:
+        v = s["rv"]["op"].get("bool") if s["rv"]["k"] == "use" and s["rv"]["op"]["k"] == "const" else None
+        if bb not in L:
+            good &= v is False
+            continue
+        facts = [f[2][0] for f in dominating_variant_facts(prog, b, bb) if f[1] == "is" and "parse_toggle(" in f[0]]
+        good &= (v is True and facts[-1:] == ["Off"]) or (v is False and facts[-1:] == ["On"])
+    rep.check(good, R, "toggle:ignored-flips-only-on-Off/On", "the region flag is set by something other than `Some(Off) => true`, `Some(On) => false` (initially false)", instance={"stores": len(stores)})
+
+
+def check_c01d(prog, rep):
+    """C01.d — the text-rebuilding normalisers leave out input pieces only under guards that imply the piece is blank."""
+    import strings
+    strings.skip_discipline(prog, rep, "C01.d")
 
 
 PROPERTIES = {
